@@ -739,9 +739,26 @@ class Normalizer:
         if gens and cb.get("impl_trait_ref"):
             # a method of a generic trait impl (`impl<T> Ext<T> for Result<T, E>`): the impl's parameters are read off
             # the instantiated trait reference of the call
-            tm = unify_types(cb["impl_trait_ref"] + "::" + cb["def"].rsplit("::", 1)[-1], c.get("def_args", ""), gens)
+            mname = cb["def"].rsplit("::", 1)[-1]
+            da = c.get("def_args", "")
+            # method-level parameters (`fn protocol_header(&mut self, h: impl ProtocolHeader)`) are the `::<..>` suffix of
+            # the instantiated path; the impl's own parameters are read off the trait reference
+            impl_gens = [g for g in gens if re.search(r"(?<![A-Za-z0-9_:'])" + re.escape(g) + r"(?![A-Za-z0-9_])", cb["impl_trait_ref"])]
+            meth_gens = [g for g in gens if g not in impl_gens]
+            meth_args = []
+            mm_ = re.match(r"^(.*::" + re.escape(mname) + r")::<(.*)>$", da)
+            if mm_:
+                da = mm_.group(1)
+                meth_args = split_targs("X<" + mm_.group(2) + ">")
+            if len(meth_args) != len(meth_gens):
+                return False
+            tm = unify_types(cb["impl_trait_ref"] + "::" + mname, da, impl_gens) if impl_gens else ({} if cb["impl_trait_ref"] + "::" + mname == da else None)
             if tm is None:
                 return False
+            tm = dict(tm)
+            tm.update(dict(zip(meth_gens, meth_args)))
+            if not tm:
+                tm = None
         elif gens:
             targs = c.get("targs", [])
             if len(targs) != len(gens):
